@@ -32,18 +32,21 @@ func parseRangeNumber(numStr string) (num int64, endIndex int64, ok bool) {
 	}
 
 	var index int64 = 0
-	for i, ch := range numStr {
+	sawDigit := false
+	for _, ch := range numStr {
 		if ch == ' ' || ch == '\t' {
 			index++
 			continue
 		}
 
 		if ch < '0' || ch > '9' {
-			if i == 0 {
+			if !sawDigit {
+				// Nothing but whitespace before a non-digit is not a number (and must not read as 0).
 				return 0, 0, false
 			}
 			return num, index, true
 		}
+		sawDigit = true
 
 		if num > (math.MaxInt64-int64(ch-'0'))/10 {
 			// Saturate instead of wrapping around: a number this large is beyond any representation
@@ -55,7 +58,7 @@ func parseRangeNumber(numStr string) (num int64, endIndex int64, ok bool) {
 		index++
 	}
 
-	return num, index, true
+	return num, index, sawDigit
 }
 
 func validateRange(start, end, dataSize int64) error {
